@@ -25,6 +25,9 @@ KINDS = {  # kind -> signature path
     'enum': 'f_enum', 'msg': 'f_msg', 'opt': 'f_opt', 'oneof': 'pick_a', 'rstr': 'r_str', 'rmsg': 'r_msg',
     'rval': 'r_val', 'mss': 'm_ss', 'msm': 'm_sm', 'dot2': 'inner.leaf', 'dot3': 'outer.mid.deep',
     'reserved': 'class', 'module': 'flatten',
+    # dotted paths that end in a repeated / message / map / repeated-message field; the request also has *top-level* fields
+    # with the leaf names (tags, mid, attrs, parts) that no signature mentions: a write to the wrong level shows on the wire
+    'rstruct': 'r_struct', 'dotr': 'inner.tags', 'dotm': 'outer.mid', 'dotmap': 'inner.attrs', 'dotrm': 'inner.parts',
 }
 DEP_KINDS = {'string': 'name', 'int': 'count', 'rstr': 'tags', 'mss': 'attrs', 'msg': 'money', 'bool': 'flag'}
 
@@ -36,10 +39,13 @@ def param_name(path):
 def build():
     mss, mss_e = map_field(Q('Req'), 'm_ss', 14, 'string', 'string')
     msm, msm_e = map_field(Q('Req'), 'm_sm', 15, 'string', Q('Inner'))
+    iattrs, iattrs_e = map_field(Q('Inner2'), 'attrs', 4, 'string', 'string')
+    tattrs, tattrs_e = map_field(Q('Req'), 'attrs', 23, 'string', 'string')
     msgs = [
         message('Inner', [field('x', 1, 'double'), field('label', 2, 'string')]),
         message('Mid', [field('deep', 1, 'string'), field('other', 2, 'int32')]),
-        message('Inner2', [field('leaf', 1, 'string'), field('mid', 2, Q('Mid'))]),
+        message('Inner2', [field('leaf', 1, 'string'), field('mid', 2, Q('Mid')), field('tags', 3, 'string', repeated=True), iattrs,
+                           field('parts', 5, Q('Inner'), repeated=True)], nested=[iattrs_e]),
         message('Outer', [field('mid', 1, Q('Mid')), field('tag', 2, 'string')]),
         message('Req', [
             field('f_string', 1, 'string'), field('f_int', 2, 'int64'), field('f_bool', 3, 'bool'),
@@ -49,8 +55,10 @@ def build():
             field('r_str', 11, 'string', repeated=True), field('r_msg', 12, Q('Inner'), repeated=True),
             field('r_val', 13, '.google.protobuf.Value', repeated=True), mss, msm,
             field('inner', 16, Q('Inner2')), field('class', 17, 'string'), field('flatten', 18, 'string'),
-            field('outer', 19, Q('Outer')), field('untouched', 20, 'string')],
-            nested=[mss_e, msm_e], oneofs=['pick']),
+            field('outer', 19, Q('Outer')), field('untouched', 20, 'string'),
+            field('tags', 21, 'string', repeated=True), field('mid', 22, Q('Mid')), tattrs, field('parts', 24, Q('Inner'), repeated=True),
+            field('r_struct', 25, '.google.protobuf.Struct', repeated=True)],
+            nested=[mss_e, msm_e, tattrs_e], oneofs=['pick']),
         message('Resp', [field('ok', 1, 'bool')]),
     ]
     cells, meths = [], []
@@ -72,6 +80,8 @@ def build():
         i += 1
         meths.append(add(f'One{i}', [[k]], f'single/{k}', [k]))
     for a, b in itertools.permutations(KINDS, 2):
+        if (KINDS[a] + '.').startswith(KINDS[b] + '.') or (KINDS[b] + '.').startswith(KINDS[a] + '.'):
+            continue    # overlapping paths (outer.mid and outer.mid.deep): "the equivalent request" is not well defined
         i += 1
         meths.append(add(f'Two{i}', [[a, b]], f'pair/{a},{b}', [a, b]))
     meths.append(add('NoSig', [], 'nosig', []))
@@ -121,6 +131,14 @@ def control_word_jobs():
         req = request([f], 'transport=grpc,autogen-snippets=false')
         desc.gate(req)
         jobs.append(dict(id=f'control-word/{w}', req=req.SerializeToString(), probe='mc.probes.imports', _word=w))
+    # two dotted entries of one signature that end in the same leaf name: both parameters would be called `name`
+    msgs = [message('Part', [field('name', 1, 'string')]), message('Req', [field('a', 1, Q('Part')), field('b', 2, Q('Part'))]),
+            message('Resp', [field('ok', 1, 'bool')])]
+    f = file('acme/flat/v1/flatten.proto', P, messages=msgs,
+             services=[service('Flat', [method('Do', Q('Req'), Q('Resp'), sigs=['a.name,b.name'])])])
+    req = request([f], 'transport=grpc,autogen-snippets=false')
+    desc.gate(req)
+    jobs.append(dict(id='control-word/same-leaf', req=req.SerializeToString(), probe='mc.probes.imports', _word='same-leaf(a.name,b.name)'))
     return jobs
 
 
